@@ -78,5 +78,8 @@ def run(tier):
     for r in recs:
         if r["ev"] == "Save" and r["res"] == "ok" and len(r["doc"]["objects"]) >= 2:
             chk.sample({"fmt": r["fmt"], "saved_bytes_ascii": bytes(r["bytes"]).decode("latin-1")[:600]}, cap=2)
-    chk.extra["negative_controls_rejected"] = lifecycle.negative_controls("c01", recs)
+    if lifecycle.VACUITY and not chk.violations:
+        raise vlib.ToolError(lifecycle.VACUITY)
+    if not chk.violations:
+        chk.extra["negative_controls_rejected"] = lifecycle.negative_controls("c01", recs)
     return chk.finish()
